@@ -106,7 +106,7 @@ def run_c09(tier, args):
     d = build()
     binary = os.path.join(d, "fsim")
     out = scratch_dir("C09")
-    n = 30000 if tier == "quick" else 600000
+    n = 120000 if tier == "quick" else 1200000
     first = first_run_seed()
     known = load_known("C09")
     extra = ["--known", ",".join(sorted(known))] if known else []
